@@ -17,6 +17,9 @@ Grids (all complete within their bounds):
   g5 chains     : k successive hops (include / namespace def / inherit /
                   include_file / get_namespace), every file in every directory,
                   relative and absolute spellings
+  g7 same name : one namespace name declared in two files of a render (includer + included, template +
+                  namespace file, derived + base) at different depths, each resolving the same relative
+                  spelling through it
   g6 crossed   : g1 x g3 (include args and context names at every depth, spelling, site)
 """
 
@@ -49,7 +52,8 @@ RULE = (
     "crosses at least one template-to-template reference whose answer differs between two candidate rules "
     "(relative URI written in a file outside the root or outside the main template's directory; a name present in at "
     "least two of inline/file/inherited/import/context; include args and context both offering a <%page> argument or "
-    "an includer with inheritance state; a module callable reached through import or call-with-content; a chain of >= 2 hops)."
+    "an includer with inheritance state; a module callable reached through import or call-with-content; a chain of >= 2 hops; "
+    "two namespaces of one name in one render)."
 )
 ASSUMPTIONS = [
     "the reference interpreter (mc/c07_ref.py, ~600 lines) implements DESIGN.md Appendix A6 and the parts of A2/A3/A5 it needs; anything else is DONT_CARE",
@@ -68,6 +72,7 @@ BOUNDS = {
         "g4": "module namespace: 5 import modes x inline/context competitors x 7 probes",
         "g5": "chains of 1..2 hops x 5 mechanisms per hop x 3 directories per file x relative/absolute spelling, files backing (+ put_string where no dot segment); 3 hops x {include, namespace def, inherit} x 2 directories, relative",
         "g6": "g1 x g3: depth 0..3 x 3 spellings x 4 include mechanisms x sites x 4 arg sets x 4 context sets",
+        "g7": "same namespace name 'h' declared in two files of one render: 12 ordered directory-depth pairs x {h.get_namespace, h.get_template, h.include_file, chained get_namespace} x {includer+included, template+namespace file, derived+base} x which call runs first x target beside both/first/second/neither x 2 backings",
     },
     "thorough": {
         "g1": "depth 0..3 x 15 spellings x (9 x 4 + 3) mechanisms x present/absent x 3 backings x main URI with/without leading slash (files)",
@@ -76,6 +81,7 @@ BOUNDS = {
         "g4": "as quick",
         "g5": "chains of 1..2 hops x 5 mechanisms x 4 directories, 3 hops x 5 mechanisms x 3 directories, 4 hops x 3 mechanisms x 2 directories, relative/absolute spelling; 5 hops (6 files) x 3 mechanisms and 7 hops (8 files) x mechanism vectors over {include, namespace def} with at most one change x 2 directories, relative",
         "g6": "g1 x g3: depth 0..3 x 5 spellings x 4 include mechanisms x sites x 4 arg sets x 8 context sets",
+        "g7": "as quick x 3 spellings (t.html, sub/t.html, ../t.html)",
     },
 }
 READY = True
@@ -587,9 +593,80 @@ def gen_g5(tier, al):
 
 
 # --------------------------------------------------------------------------
+# g7: the same namespace NAME in two files of one render, each resolving the same relative spelling
+
+G7_MECH = ["ns_get_namespace", "ns_get_template", "ns_include_file", "chained_get_namespace"]
+G7_REL = ["include", "nsdef", "base"]
+
+
+def g7_program(al, dA, dB, sp, mech, rel, first, present):
+    """two files in different directories declare <%namespace name="h" file="helper.html"/> (each beside
+    its own helper.html) and reach `sp` through h; every call must resolve against its own helper"""
+    d1, d2, d3 = al["dirs"]
+    tx = al["txt"]
+    DIRS = ["", "/" + d1, "/%s/%s" % (d1, d2), "/%s/%s/%s" % (d1, d2, d3)]
+    A, B = DIRS[dA], DIRS[dB]
+
+    def call(tag):
+        if mech == "ns_get_namespace":
+            st = [["get_ns", "h", sp, "body", ""], ["get_ns", "h", sp, "m", ""]]
+        elif mech == "ns_get_template":
+            st = [["get_tpl", "h", sp]]
+        elif mech == "ns_include_file":
+            st = [["include_file", "h", sp, ""]]
+        else:
+            st = [["get_ns2", "local", "helper.html", sp, "body"]]
+        return [T(tag + "<")] + st + [T(">")]
+
+    nsh = [] if mech == "chained_get_namespace" else [Ns("h", file="helper.html")]
+    files = {}
+    for D in (A, B):
+        files[D + "/helper.html"] = File(defs=[Def("k", "", [T("[k]")])], body=[T("[helper-body]")])
+    M = A + "/main.html"
+    Pt = B + "/part.html"
+    ca, cb = call("A"), call("B")
+    if rel == "include":
+        inc = [["include", Pt, ""]]
+        files[M] = File(ns=list(nsh), body=(ca + inc) if first == "A" else (inc + ca))
+        files[Pt] = File(ns=list(nsh), body=cb)
+    elif rel == "nsdef":
+        go = [["attr", "p", "go", ""]]
+        files[M] = File(ns=list(nsh) + [Ns("p", file=Pt)], body=(ca + go) if first == "A" else (go + ca))
+        files[Pt] = File(ns=list(nsh), defs=[Def("go", "", cb)], body=[T("[part-body]")])
+    else:
+        nb = [["attr", "next", "body", ""]]
+        files[M] = File(ns=list(nsh), inherit=Pt, body=ca)
+        files[Pt] = File(ns=list(nsh), body=(nb + cb) if first == "A" else (cb + nb))
+    for D, here in ((A, present[0]), (B, present[1])):
+        if here:
+            try:
+                t = R.resolve(sp, D + "/helper.html")
+            except R.Lookup:
+                continue
+            if t not in files:
+                files[t] = target_file(t.rsplit("/", 1)[0] or "/", tx)
+    return files, M, {}
+
+
+def gen_g7(tier, al):
+    spells = ["t.html"] if tier == "quick" else ["t.html", "sub/t.html", "../t.html"]
+    for dA in range(4):
+        for dB in range(4):
+            if dA == dB:
+                continue
+            for sp in spells:
+                for mech in G7_MECH:
+                    for rel in G7_REL:
+                        for first in ("A", "B"):
+                            for present in ((1, 1), (1, 0), (0, 1), (0, 0)):
+                                meta = {"grid": "g7", "mech": mech, "rel": rel, "first": first, "present": list(present), "dA": dA, "dB": dB, "sp": spelling_class(sp)}
+                                yield meta, functools.partial(g7_program, al, dA, dB, sp, mech, rel, first, present)
+
+
+# --------------------------------------------------------------------------
 # case stream
 
-GRIDS = {"g1": gen_g1, "g2": gen_g2, "g3": gen_g3, "g4": gen_g4, "g5": gen_g5, "g6": gen_g6}
+GRIDS = {"g1": gen_g1, "g2": gen_g2, "g3": gen_g3, "g4": gen_g4, "g5": gen_g5, "g6": gen_g6, "g7": gen_g7}
 BACKINGS = {
     "g1": ["put", "files1", "files2"],
     "g2": ["put", "files1"],
@@ -597,6 +674,7 @@ BACKINGS = {
     "g4": ["put"],
     "g5": ["files1", "put"],
     "g6": ["files1"],
+    "g7": ["put", "files1"],
 }
 
 
@@ -622,6 +700,9 @@ def uses_dots(files):
                 yield s[1]
             elif s[0] in ("include_file", "get_ns", "get_tpl"):
                 yield s[2]
+            elif s[0] == "get_ns2":
+                yield s[2]
+                yield s[3]
             elif s[0] == "block":
                 for u in stmt_uris(s[2]):
                     yield u
@@ -649,6 +730,8 @@ def nontrivial(meta, files, M, it):
         return meta["probe"] in ("wrap_cc", "wrap_nested", "plain_bare", "ret_bare") or bool(meta["imp"])
     if g == "g5":
         return meta["k"] >= 2
+    if g == "g7":
+        return True
     return False
 
 
@@ -848,6 +931,13 @@ def signature(case, obs, kind):
     if g == "g4":
         impk = "none" if meta["imp"] is None else ("star" if "*" in meta["imp"] else "named")
         return "g4:%s:import=%s:exp=%s:obs=%s" % (meta["probe"], impk, _winner(tuple(exp)) if exp[0] == "out" else exp[1], how if obs[0] != "out" else _winner(obs))
+    if g == "g7":
+        if exp[0] == "out" and obs[0] == "out":
+            how = "a namespace of the same name in another file answered (other template than the uri names)"
+        elif exp[0] == "err" and obs[0] == "out":
+            how = "unresolvable uri served"
+        what = "get_namespace" if "get_namespace" in meta["mech"] else meta["mech"]
+        return "g7:%s through a namespace name shared by two files:exp=%s:obs=%s" % (what, exp[0] if exp[0] != "err" else exp[1], how)
     if g == "g5":
         return "g5:%s:%s:exp=%s:obs=%s" % (meta["mechs"], meta["spells"], exp[0] if exp[0] != "err" else exp[1], how)
     return "%s:exp=%s:obs=%s" % (g, exp[0], how)
@@ -920,9 +1010,9 @@ def check_case(case, st, it=None):
 
 def _shards(tier):
     n = core.NPROC
-    per = {"g1": 2 * n, "g2": 2 * n, "g3": n, "g4": 2, "g5": 2 * n, "g6": n}
+    per = {"g1": 2 * n, "g2": 2 * n, "g3": n, "g4": 2, "g5": 2 * n, "g6": n, "g7": n}
     if tier == "thorough":
-        per = {"g1": 2 * n, "g2": 2 * n, "g3": n, "g4": 2, "g5": 8 * n, "g6": n}
+        per = {"g1": 2 * n, "g2": 2 * n, "g3": n, "g4": 2, "g5": 8 * n, "g6": n, "g7": n}
     return per
 
 
@@ -932,7 +1022,7 @@ def plan(tier, seed):
         for i in range(k):
             jobs.append({"grid": g, "tier": tier, "seed": seed, "shard": i, "nshards": k})
     # heavy grids first; the seed permutes the rest of the order only
-    jobs.sort(key=lambda j: ({"g5": 0, "g6": 1, "g1": 2, "g2": 3, "g3": 4, "g4": 5}[j["grid"]], (j["shard"] + seed) % j["nshards"]))
+    jobs.sort(key=lambda j: ({"g5": 0, "g6": 1, "g1": 2, "g2": 3, "g7": 4, "g3": 5, "g4": 6}[j["grid"]], (j["shard"] + seed) % j["nshards"]))
     return jobs
 
 
